@@ -43,6 +43,18 @@ Definition subsig_ok (o : obj) : Prop :=
   | OSys _ _ sigs lens _ _ => forall k len, afind lens k = Some len -> ahas sigs k = true /\ len <> 0
   | OComp _ => True
   end.
+(* every system inside: signals have a recorded non-zero length and are listed once *)
+Fixpoint deep_ok (fuel : nat) (o : obj) : Prop :=
+  match fuel with
+  | O => False
+  | S f =>
+      match o with
+      | OComp _ => True
+      | OSys _ comps sigs lens _ _ =>
+          subsig_ok o /\ (forall s e, In (s, e) sigs -> exists len, afind lens s = Some len) /\ NoDup (map fst sigs) /\
+          forall cn sub, In (cn, sub) comps -> deep_ok f sub
+      end
+  end.
 Definition entry_wf (prefix : string) (comps : list (string * obj)) (n : nat) (l : loc) (cname : string) : Prop :=
   match l with
   | LRef x => exists c, afind comps cname = Some (OComp c) /\ List.length (flatB c (ref_base c x)) = n /\
@@ -54,6 +66,8 @@ Definition entry_wf (prefix : string) (comps : list (string * obj)) (n : nat) (l
 Record RI (f : nat) (prefix : string) (comps : list (string * obj)) (sigs : list (string * list (loc * string * bool))) (lens : list (string * nat)) : Prop := {
   ri_nd : NoDup (map fst comps);
   ri_sub : forall cn sub, In (cn, sub) comps -> sys_wf f sub;
+  ri_deep : forall cn sub, In (cn, sub) comps -> deep_ok f sub;
+  ri_nds : NoDup (map fst sigs);
   ri_ent : forall sname entries, In (sname, entries) sigs -> forall l cname wc, In (l, cname, wc) entries -> entry_wf prefix comps (lens_of lens sname) l cname;
   ri_len : forall sname entries, In (sname, entries) sigs -> exists len, afind lens sname = Some len;
   ri_keys : forall k len, afind lens k = Some len -> ahas sigs k = true /\ len <> 0 }.
@@ -65,12 +79,13 @@ Lemma entry_wf_grow prefix comps x n l cname : entry_wf prefix comps n l cname -
 Proof. destruct l as [r|s0]; simpl.
   - intros [c [A B]]. exists c. split; [apply afind_app_l, A | exact B].
   - intros [a [b [c [d [e [A B]]]]]]. exists a, b, c, d, e. split; [apply afind_app_l, A | exact B]. Qed.
-Lemma RI_grow f prefix comps sigs lens cn o : RI f prefix comps sigs lens -> ahas comps cn = false -> sys_wf f o -> RI f prefix (comps ++ [(cn, o)]) sigs lens.
-Proof. intros [A B C D E] NH WO. constructor; [| | |exact D | exact E].
+Lemma RI_grow f prefix comps sigs lens cn o : RI f prefix comps sigs lens -> ahas comps cn = false -> sys_wf f o -> deep_ok f o -> RI f prefix (comps ++ [(cn, o)]) sigs lens.
+Proof. intros [A B B2 N C D E] NH WO WD. constructor; [| | | exact N | |exact D | exact E].
   - rewrite map_app. simpl. apply NoDup_snoc; [exact A|].
     intros Hx. apply in_map_iff in Hx. destruct Hx as [[k v] [Ek Hin]]. simpl in Ek. subst k. unfold ahas in NH.
     rewrite (afind_In _ _ _ A Hin) in NH. discriminate.
   - intros cn' sub Hin. apply in_app_or in Hin. destruct Hin as [Hin|[Q|[]]]; [apply (B _ _ Hin) | inversion Q; subst; exact WO].
+  - intros cn' sub Hin. apply in_app_or in Hin. destruct Hin as [Hin|[Q|[]]]; [apply (B2 _ _ Hin) | inversion Q; subst; exact WD].
   - intros sname entries Hin l cname wc He. apply entry_wf_grow. apply (C sname entries Hin l cname wc He). Qed.
 
 Lemma afind_map_upd {V} (sigs : list (string * V)) g (F : V -> V) k :
@@ -85,9 +100,12 @@ Proof. induction sigs as [|[k0 v] sigs IH]; simpl; [reflexivity|]. destruct (Str
 Lemma bind_signal_RI f prefix comps sigs lens g l cname wc len dummy sigs' lens' :
   bind_signal sigs lens g (l, cname, wc) len dummy = OK (sigs', lens') -> RI f prefix comps sigs lens ->
   entry_wf prefix comps len l cname -> (dummy = false -> len <> 0) -> RI f prefix comps sigs' lens'.
-Proof. intros H [A B C D E] EW NZ. unfold bind_signal in H. destruct (afind sigs g) as [l0|] eqn:AS.
+Proof. intros H [A B B2 N C D E] EW NZ. unfold bind_signal in H. destruct (afind sigs g) as [l0|] eqn:AS.
   - destruct (afind lens g) as [l1|] eqn:AL; [|discriminate]. destruct (Nat.eqb_spec l1 len) as [EQ|]; [|discriminate]. inversion H; subst sigs' lens'. clear H.
-    constructor; [exact A | exact B | | |].
+    constructor; [exact A | exact B | exact B2 | | | |].
+    + assert (MF : map fst (map (fun '(k, v) => if String.eqb k g then (k, v ++ [(l, cname, wc)]) else (k, v)) sigs) = map fst sigs).
+      { clear. induction sigs as [|[k v] sg IHs]; [reflexivity|]. simpl. rewrite IHs. destruct (String.eqb k g); reflexivity. }
+      rewrite MF. exact N.
     + intros sname entries Hin l' cname' wc' He. apply in_map_iff in Hin. destruct Hin as [[k v] [Q Hin]]. destruct (String.eqb k g) eqn:EK.
       * injection Q as <- <-. apply String.eqb_eq in EK. subst k. apply in_app_or in He. destruct He as [He|[He|[]]]; [apply (C g v Hin _ _ _ He)|].
         injection He as <- <- <-. unfold lens_of. rewrite AL, EQ. exact EW.
@@ -97,7 +115,9 @@ Proof. intros H [A B C D E] EW NZ. unfold bind_signal in H. destruct (afind sigs
   - destruct dummy; [discriminate|]. inversion H; subst sigs' lens'. clear H. specialize (NZ eq_refl).
     assert (NL : afind lens g = None).
     { destruct (afind lens g) as [x|] eqn:AL; [|reflexivity]. destruct (E g x AL) as [E1 _]. unfold ahas in E1. rewrite AS in E1. discriminate. }
-    constructor; [exact A | exact B | | |].
+    constructor; [exact A | exact B | exact B2 | | | |].
+    + rewrite map_app. simpl. apply NoDup_snoc; [exact N|]. intros C0. apply in_map_iff in C0. destruct C0 as [[k v] [Ek Hin]]. simpl in Ek. subst k.
+      rewrite (afind_In _ _ _ N Hin) in AS. discriminate.
     + intros sname entries Hin l' cname' wc' He. apply in_app_or in Hin. destruct Hin as [Hin|[Q|[]]].
       * destruct (D sname entries Hin) as [len0 AL]. unfold lens_of. rewrite (afind_app_l _ _ _ _ AL). pose proof (C sname entries Hin _ _ _ He) as X. unfold lens_of in X. rewrite AL in X. exact X.
       * injection Q as <- <-. destruct He as [He|[]]. injection He as <- <- <-. unfold lens_of. rewrite afind_app, NL. simpl. rewrite String.eqb_refl. exact EW.
@@ -145,7 +165,7 @@ Variable fs : ftable.
 Variable includes : list string.
 
 Lemma run_stmts_RI f ld prefix new_path :
-  (forall ctr tpath cargs pre np o ctr', ld ctr tpath cargs pre np = OK (o, ctr') -> sys_wf f o /\ subsig_ok o /\ wp pre o /\
+  (forall ctr tpath cargs pre np o ctr', ld ctr tpath cargs pre np = OK (o, ctr') -> sys_wf f o /\ deep_ok f o /\ subsig_ok o /\ wp pre o /\
      match o with OComp c => WF c /\ forall x, In x (map fst (c_ins c) ++ map fst (c_outs c)) -> port_ok c x | OSys _ _ _ _ _ _ => True end) ->
   forall stmts templ comps sigs lens ctr comps' sigs' lens' ctr',
   run_stmts ld prefix new_path stmts templ comps sigs lens ctr = OK (comps', sigs', lens', ctr') ->
@@ -161,15 +181,15 @@ Proof. intros HL. induction stmts as [|s rest IH]; intros templ comps sigs lens 
       match type of H with (do sl <- ?e; _) = _ => destruct e as [[s1 l1]|] eqn:BD; [|discriminate] end. cbn [bind fst snd] in H.
       assert (FO : afind (comps ++ [(cname, o)]) cname = Some o).
       { rewrite afind_app. unfold ahas in AH. destruct (afind comps cname); [discriminate|]. simpl. rewrite String.eqb_refl. reflexivity. }
-      destruct (HL _ _ _ _ _ _ _ LD) as [WO [SO [WP PO]]].
-      apply (IH _ _ _ _ _ _ _ _ _ H). pose proof (RI_grow f prefix comps sigs lens cname o R AH WO) as R'.
+      destruct (HL _ _ _ _ _ _ _ LD) as [WO [WD [SO [WP PO]]]].
+      apply (IH _ _ _ _ _ _ _ _ _ H). pose proof (RI_grow f prefix comps sigs lens cname o R AH WO WD) as R'.
       destruct o as [c|pr cs sg ilens iins iouts].
       * destruct PO as [W PO]. apply (bind_comp_RI f prefix _ c cname FO W _ _ _ _ _ _ PO BD R').
       * simpl in WP. destruct WP as [-> _]. apply (bind_sys_RI f prefix _ cname cs sg ilens iins iouts FO SO _ _ _ _ _ _ BD R'). Qed.
 
 Theorem load_file_sys_wf : forall fuel ctr b args prefix path o ctr',
   load_file fs includes fuel ctr b args prefix path = OK (o, ctr') ->
-  sys_wf fuel o /\ subsig_ok o /\
+  sys_wf fuel o /\ deep_ok fuel o /\ subsig_ok o /\
   match o with OComp c => WF c /\ forall x, In x (map fst (c_ins c) ++ map fst (c_outs c)) -> port_ok c x | OSys _ _ _ _ _ _ => True end.
 Proof. induction fuel as [|f IH]; intros ctr b args prefix path o ctr' H; [discriminate|]. pose proof H as H0. cbn [load_file] in H.
   destruct (search_file fs b (path :: includes)) as [[[bp entry] new_path]|]; [|discriminate]. cbn [bind] in H.
@@ -178,7 +198,7 @@ Proof. induction fuel as [|f IH]; intros ctr b args prefix path o ctr' H; [discr
   - destruct (f_body entry) as [|[|d [|body [|]]]]; try discriminate.
     destruct (d_declare d) as [dd|]; [|discriminate]. destruct (dL (d_stmt_e e) body) as [bb|]; [|discriminate].
     destruct (compile_comp ctr prefix dd bb) as [[c c1]|] eqn:CC; [|discriminate]. cbn [bind fst snd] in H. inversion H; subst.
-    destruct (compile_comp_inv _ _ _ _ _ _ CC) as [W [W2 _]]. cbn [sys_wf subsig_ok]. split; [split; assumption|]. split; [exact I|]. split; [exact W|].
+    destruct (compile_comp_inv _ _ _ _ _ _ CC) as [W [W2 _]]. cbn [sys_wf subsig_ok deep_ok]. split; [split; assumption|]. split; [exact I|]. split; [exact I|]. split; [exact W|].
     apply (compile_ports_ok _ _ _ _ _ _ CC).
   - destruct (f_body entry) as [|[|ins [|outs [|stmts [|]]]]]; try discriminate.
     destruct (dL d_sig ins) as [sins|]; [|discriminate]. destruct (dL d_sig outs) as [souts|]; [|discriminate].
@@ -186,12 +206,14 @@ Proof. induction fuel as [|f IH]; intros ctr b args prefix path o ctr' H; [discr
     destruct (run_stmts (load_file fs includes f) prefix new_path st [] [] [] [] ctr) as [[[[comps sigs] lens] c1]|] eqn:R; [|discriminate].
     cbn [bind] in H. destruct (forallb _ _); [|discriminate]. inversion H; subst.
     assert (R0 : RI f prefix [] [] []).
-    { constructor; [constructor | intros ? ? [] | intros ? ? [] | intros ? ? [] | intros k len A; discriminate]. }
+    { constructor; [constructor | intros ? ? [] | intros ? ? [] | constructor | intros ? ? [] | intros ? ? [] | intros k len A; discriminate]. }
     pose proof (run_stmts_RI f (load_file fs includes f) prefix new_path
-      (fun ctr0 tpath cargs pre np o0 ctr0' L => let '(conj A (conj B C)) := IH ctr0 tpath cargs pre np o0 ctr0' L in
-         conj A (conj B (conj (load_file_wp fs includes f ctr0 tpath cargs pre np o0 ctr0' L) C)))
-      st [] [] [] [] ctr comps sigs lens _ R R0) as [A B C D E].
-    cbn [sys_wf subsig_ok]. split; [|split; [exact E | exact I]]. split; [exact A|]. split; [exact B|].
+      (fun ctr0 tpath cargs pre np o0 ctr0' L => let '(conj A (conj A2 (conj B C))) := IH ctr0 tpath cargs pre np o0 ctr0' L in
+         conj A (conj A2 (conj B (conj (load_file_wp fs includes f ctr0 tpath cargs pre np o0 ctr0' L) C))))
+      st [] [] [] [] ctr comps sigs lens _ R R0) as [A B B2 N C D E].
+    cbn [sys_wf subsig_ok deep_ok]. split; [|split; [|split; [exact E | exact I]]].
+    2: { split; [exact E|]. split; [exact D|]. split; [exact N | exact B2]. }
+    split; [exact A|]. split; [exact B|].
     intros sname entries Hin l cname wc He. pose proof (C sname entries Hin l cname wc He) as X. destruct l; exact X. Qed.
 End L.
 
